@@ -405,6 +405,43 @@ func c18RunRejected(first []string, later int) explore.Result {
 	return res
 }
 
+// c18RunBetweenOversized: under a small message limit an oversized message is skipped, ordinary queries follow (their
+// texts are retained), a second and third oversized message are skipped: wherever in the reader's 4 KiB block all of
+// this falls (a filler query of `fill` bytes comes first), the retained texts keep their content.
+func c18RunBetweenOversized(limit, fill, between int) explore.Result {
+	var res explore.Result
+	res.Outcome = "retained"
+	res.Key = fmt.Sprint("between-oversized", limit, fill, between)
+	st := &c18State{}
+	parse := func(ctx context.Context, q string) (wire.PreparedStatements, error) {
+		st.keepString("query text "+clip(q), q)
+		return wire.Prepared(wire.NewStatement(func(ctx context.Context, w wire.DataWriter, params []wire.Parameter) error { return w.Complete("OK") })), nil
+	}
+	one, err := harness.StartOne(parse, wire.MessageBufferSize(limit))
+	if err != nil {
+		res.Engine = err.Error()
+		return res
+	}
+	defer one.Stop()
+	one.Step(pgproto.Startup("user", "u"))
+	for n := fill; n > 0; n -= limit - 40 {
+		one.Step(pgproto.Query("filler " + strings.Repeat("f", min(n, limit-40))))
+	}
+	over := pgproto.Query("SELECT '" + strings.Repeat("#", limit+90) + "'")
+	for round := 0; round < 3; round++ {
+		one.Step(over)
+		for i := 0; i < between; i++ {
+			// (texts of about the limit's size and of three fifths of it: together more than the limit)
+			one.Step(pgproto.Query(fmt.Sprintf("retained text %d of round %d %s", i, round, strings.Repeat("r", []int{limit - 70, limit * 3 / 5, 20}[i%3]))))
+		}
+		if d := st.check(); d != "" {
+			res.Fail("retained-data-overwritten", fmt.Sprintf("limit %d, %d bytes of earlier queries, then rounds of (an oversized message, %d queries): in round %d %s", limit, fill, between, round+1, d))
+			return res
+		}
+	}
+	return res
+}
+
 // c18RunUnterminated: a Query whose text lacks its terminator. If the server hands such a text to the parser at all,
 // the text is retained like any other while the following messages arrive.
 func c18RunUnterminated(n int, followers int) explore.Result {
@@ -491,6 +528,17 @@ func c18Enumerate(tier string, emit explore.Emit) {
 				Run: func() explore.Result { return c18RunRejected(first, later) }})
 		}
 	})
+	for _, limit := range []int{512, 1024, 2048} {
+		for fill := 0; fill <= 4200; fill += 300 {
+			for _, between := range []int{2, 3} {
+				limit, fill, between := limit, fill, between
+				emit(explore.Case{Family: fmt.Sprintf("retention/limit=%d", min(limit, 1024)), Size: 7, Desc: func() any {
+					return map[string]any{"message_limit": limit, "bytes_of_earlier_queries": fill, "rounds_of": fmt.Sprintf("an oversized message, then %d retained queries", between)}
+				},
+					Run: func() explore.Result { return c18RunBetweenOversized(limit, fill, between) }})
+			}
+		}
+	}
 	for _, n := range []int{0, 40, 1000, 4000} {
 		for _, f := range []int{1, 3, 8} {
 			n, f := n, f
